@@ -7,6 +7,7 @@ import c17
 
 CONFIGS = ['prod']
 EXPLANATION = (
+    'R5: the source-less OrSWotSet::insert / delete the replay uses are insert_with_source / delete_with_source under one constant source and touch the set through nothing else; the sourced mutators re-evaluated (C04.SEM). '
     'SEM (abstract interpretation of the MIR, no code runs): KeyspaceGroup::load_states_from_storage is interpreted against a scripted storage (two keyspaces; four rows in '
     'storage order of which two share a stamp and one is a tombstone; one row) with the storage calls, the operations on the rebuilt sets and the final hand-over as recorded '
     'effects: every listed keyspace must be rebuilt from its own rows, every row replayed exactly once as the right operation with its own id and stamp, in non-decreasing '
@@ -181,6 +182,11 @@ def check(ctx):
     import rebuild_abs
     if not rebuild_abs.check_rebuild(ctx, facts, 'C07.SEM'):
         check_R1(ctx, facts)
+    # R5: the replay goes through the set's source-less insert / delete: they are the sourced mutators under one constant source and
+    # nothing else (orswot_abs.check_wrappers), and the sourced mutators are what C04 decides them to be (re-evaluated here)
+    import orswot_abs
+    orswot_abs.check_wrappers(ctx, facts, 'C07.R5')
+    orswot_abs.check_mutators(ctx, facts, 'C07.R5.SET')
     check_R3(ctx, facts)
     n0 = len(ctx.obs)
     c17.check_B4(ctx, facts)
